@@ -65,14 +65,10 @@ Qed.
 Lemma strip_line_ends_wf : forall l, Forall wfn l -> Forall wfn (strip_line_ends l).
 Proof.
   induction l as [|n t IH]; intros H; [constructor|]. inversion H as [|? ? Hn Ht]; subst.
-  destruct t as [|m t'].
-  - cbn [strip_line_ends]. destruct (is_text n) eqn:E.
-    + constructor; [|constructor]. intros F. change (is_text (rstrip_node n)) with (is_text n) in F. congruence.
-    + constructor; [exact Hn|constructor].
-  - rewrite sle_cons2. constructor; [|apply IH; exact Ht].
-    destruct (is_text n && is_break m) eqn:E; [|exact Hn].
-    apply andb_true_iff in E. destruct E as [E _].
-    intros F. change (is_text (rstrip_node n)) with (is_text n) in F. congruence.
+  rewrite sle_cons2. constructor; [|apply IH; exact Ht].
+  destruct (is_text n && next_plain_is_sep t) eqn:E; [|exact Hn].
+  apply andb_true_iff in E. destruct E as [E _].
+  intros F. change (is_text (rstrip_node n)) with (is_text n) in F. congruence.
 Qed.
 
 Lemma format_italics_wf : forall l, wf_nodes l -> SccItalicsFacts.wf_nodes (format_italics l).
@@ -581,4 +577,48 @@ Proof.
   { unfold word_chars. destruct ctrl_commands as (C2 & C3 & C4 & Cd & _).
     destruct Hw0 as [->|[->|[->| ->]]]; rewrite ?C2, ?C3, ?C4, ?Cd; reflexivity. }
   rewrite W0. destruct (fst (handle_double s0 w0)); cbn [app]; rewrite nonspace_app; reflexivity.
+Qed.
+
+(* ---- examples (non-vacuity) ---------------------------------------------------------------------------- *)
+(* storing a buffer "ab c" / break / "d " on top of a caption list that already holds "x y" *)
+Example create_and_store_text_example :
+  let c := mkCr [mkI IText [97; 98; 32; 99] (14, 0); mkI IBreak [] (15, 0); mkI IText [100; 32] (15, 0)] SNone in
+  let s := create_and_store stash0 (mkCr [mkI IText [120; 32; 121] (1, 0)] SNone) 0 0 in
+  wf_nodes (cr_nodes c) /\ nonspace (stash_text s) = [120; 121] /\ nonspace (content c) = [97; 98; 99; 100] /\
+  nonspace (stash_text (create_and_store s c 1000000 0)) = [120; 121; 97; 98; 99; 100].
+Proof.
+  intros c s.
+  assert (W : wf_nodes (cr_nodes c)).
+  { intros n Hn Ht. cbn [c cr_nodes In] in Hn. destruct Hn as [<-|[<-|[<-|[]]]]; try discriminate Ht; reflexivity. }
+  split; [exact W|]. split; [vm_compute; reflexivity|]. split; [vm_compute; reflexivity|].
+  rewrite (create_and_store_text s c 1000000 0 W). vm_compute. reflexivity.
+Qed.
+
+(* roll-up 2, carriage return, PAC row 15, "ab": one more "ab" is handed to the buffer; a carriage return moves the text
+   to the caption list and hands over nothing *)
+Local Notation ex_enter := (translate_word (set_clock (rstate0 0) (lit "00:00:01:00") 0) w_ru2 (Some w_cr)).
+Local Notation ex_state := (translate_words ex_enter [w_cr; 38000; 24930]).
+
+Example rp_step_example :
+  rp_inv ex_state /\ r_err ex_state = None /\ total ex_state = [97; 98] /\
+  rp_word 24930 = true /\ fst (handle_double ex_state 24930) = false /\ word_chars 24930 = [97; 98] /\
+  total (translate_word ex_state 24930 None) = [97; 98; 97; 98] /\
+  total (translate_word ex_state w_cr None) = [97; 98] /\ content (buf (translate_word ex_state w_cr None)) = [].
+Proof.
+  assert (E1 : r_err ex_enter = None) by (vm_compute; reflexivity).
+  assert (Hfin : r_err ex_state = None) by (vm_compute; reflexivity).
+  assert (Hf : forallb rp_word [w_cr; 38000; 24930] = true) by (vm_compute; reflexivity).
+  destruct (rp_enter 0 (lit "00:00:01:00") w_ru2 (Some w_cr) ltac:(auto) E1) as [I1 _].
+  destruct (rp_words [w_cr; 38000; 24930] _ I1 Hf E1 Hfin) as [_ I].
+  assert (T : total ex_state = [97; 98]) by (vm_compute; reflexivity).
+  assert (Hw : rp_word 24930 = true) by (vm_compute; reflexivity).
+  assert (Hc : rp_word w_cr = true) by (vm_compute; reflexivity).
+  assert (F1 : r_err (translate_word ex_state 24930 None) = None) by (vm_compute; reflexivity).
+  assert (F2 : r_err (translate_word ex_state w_cr None) = None) by (vm_compute; reflexivity).
+  destruct (rp_step ex_state 24930 None I Hw Hfin F1) as [S1 _].
+  destruct (rp_step ex_state w_cr None I Hc Hfin F2) as [S2 _].
+  split; [exact I|]. split; [exact Hfin|]. split; [exact T|]. split; [exact Hw|].
+  split; [vm_compute; reflexivity|]. split; [vm_compute; reflexivity|].
+  split; [rewrite S1, T; vm_compute; reflexivity|]. split; [rewrite S2, T; vm_compute; reflexivity|].
+  vm_compute. reflexivity.
 Qed.
